@@ -14,7 +14,8 @@
 
    This file contains only the property theorems; proofs are in Proofs/Loky*.v. *)
 From Coq Require Import ZArith List Bool Arith.
-Require Import JV.Model.LokyExec JV.Proofs.LokyExec JV.Proofs.LokyExec2 JV.Proofs.LokyExec3 JV.Proofs.LokyPool.
+Require Import JV.Model.LokyExec JV.Model.LokyDrive JV.Proofs.LokyExec JV.Proofs.LokyExec2 JV.Proofs.LokyExec3
+               JV.Proofs.LokyPool.
 Import ListNotations.
 
 (* reachable e : e = run (new_exec mw qc pid0) evs for some parameters and some event list *)
@@ -116,3 +117,21 @@ Theorem C10_midsend_refuted :
   forall evs, mgr (run e evs) = Stuck /\ futs (run e evs) 0 = FRunning /\ broken (run e evs) = broken e.
 Proof. exact midsend_refuted. Qed.
 Print Assumptions C10_midsend_refuted.
+
+(* A worker that dies AFTER its whole result message was written: which outcome the affected call has is a
+   race between the results of the other workers and the manager thread noticing the sentinel
+   (wait_result_broken_or_wakeup reads the result pipe first).  Both schedules are event sequences of the
+   model, so every theorem above covers both; here they are, for the scenario the race was observed on
+   (n_jobs = 4, 5 tasks, victim = task 0): in one the death is masked until the call has returned its 5 results
+   (class 0) and the executor is replaced silently, in the other the manager handles the death while tasks of the
+   call are pending and the call raises TerminatedWorkerError (class 1).  In both, at most one call fails, the
+   failure is the worker-termination error, no call is left blocked and the follow-up calls run on fresh
+   processes: both branches satisfy the C10 statement. *)
+Example C10_after_send_both_schedules :
+  let prefix := [MCall 5 5 []; MRounds 13] in
+  let suffix := [MRounds 13; MCall 5 5 []; MRounds 13; MCall 5 5 []; MRounds 13] in
+  show (drive 4 33 (prefix ++ MCall 5 5 [(0, TAfterSend)] :: suffix))
+    = ([(0, 5); (0, 5); (0, 5); (0, 5)]%Z, (false, false, true)) /\
+  show (drive 4 33 (prefix ++ MCall 5 5 [(0, TAfterSendSeen)] :: suffix))
+    = ([(0, 5); (1, 0); (0, 5); (0, 5)]%Z, (false, false, true)).
+Proof. vm_compute. split; reflexivity. Qed.
